@@ -41,6 +41,9 @@ pub enum Act {
     ReleaseHeld,
     /// advance the virtual clock by ms
     Advance(u64),
+    /// several actions applied before the connection is polled again (events that become visible
+    /// to one and the same poll)
+    Batch(Vec<Act>),
 }
 
 impl Act {
@@ -58,6 +61,7 @@ impl Act {
             Act::Gate(g, p) => json!({"gate": [g, p]}),
             Act::ReleaseHeld => json!("release_held"),
             Act::Advance(ms) => json!({"advance": ms}),
+            Act::Batch(v) => json!({"batch": v.iter().map(|a| a.to_json()).collect::<Vec<_>>()}),
         }
     }
     pub fn from_json(v: &Value) -> Option<Act> {
@@ -82,6 +86,7 @@ impl Act {
             "block_shutdown" => Some(Act::BlockShutdown(x.as_bool()?)),
             "gate" => Some(Act::Gate(x[0].as_u64()? as usize, x[1].as_u64()? as usize)),
             "advance" => Some(Act::Advance(x.as_u64()?)),
+            "batch" => Some(Act::Batch(x.as_array()?.iter().filter_map(Act::from_json).collect())),
             _ => None,
         }
     }
@@ -103,6 +108,7 @@ impl Act {
             Act::Gate(g, _) => format!("g{g}"),
             Act::ReleaseHeld => "h".into(),
             Act::Advance(_) => "t".into(),
+            Act::Batch(v) => format!("[{}]", v.iter().map(|a| a.tag()).collect::<String>()),
         }
     }
 }
@@ -185,6 +191,8 @@ pub struct Outcome {
     pub resp_bytes_pulled: u64,
     pub body_bytes_delivered: u64,
     pub end_ms: u64,
+    /// sequence number at which each gate was first opened (0: never)
+    pub gate_open_seq: Vec<u64>,
 }
 
 fn result_text(r: &ConnResult) -> Result<(), String> {
@@ -210,7 +218,18 @@ async fn quiet(d: &mut Driven<ConnResult>, cap: u64, livelock: &mut bool) {
 }
 
 async fn apply(a: &Act, io: &IoHandle, w: &W, now_ms: &mut u64) {
+    if let Act::Batch(v) = a {
+        for x in v {
+            apply_one(x, io, w, now_ms).await;
+        }
+        return;
+    }
+    apply_one(a, io, w, now_ms).await
+}
+
+async fn apply_one(a: &Act, io: &IoHandle, w: &W, now_ms: &mut u64) {
     match a {
+        Act::Batch(_) => {}
         Act::Push(d) => io.push(d),
         Act::Eof => io.eof(),
         Act::Reset => io.reset(),
@@ -313,6 +332,7 @@ pub fn run_scenario(sc: &Scenario) -> Outcome {
             resp_bytes_pulled: wd.resp_bytes_pulled,
             body_bytes_delivered: wd.body_bytes_delivered,
             end_ms: now_ms,
+            gate_open_seq: wd.gates.iter().map(|g| g.first_open_seq).collect(),
         }
     })
 }
